@@ -29,6 +29,7 @@ class RunCtx:
         self.starts = {}        # node idx -> number of on_node_start seen
         self.calls = {}         # node idx -> body calls since last start
         self.input_kwargs = input_kwargs
+        self.ntasks = 0         # tasks created by this run (local task indices, as in the model)
         self.task = None
         self.result = None      # ('value', v) | ('error', ident) | ('raised', ident) | ('cancelled',)
 
@@ -106,6 +107,7 @@ class World:
         self.graph, self.index_of = progen.dump_graph(self.dag, spec)
         progen.WORLD_INDEX['index_of'] = self.index_of
         self.loop = StepLoop()
+        self.loop.world = self
         _LOOP_HOLDER['loop'] = self.loop
         install_lock_probe(_LOOP_HOLDER)
         self.loop.on_task_created = self._task_created
@@ -185,7 +187,8 @@ class World:
 
             def _get_node_order(mgr, dag):
                 out = orig(mgr, dag)
-                w = _LOOP_HOLDER.get('world')
+                lp = asyncio.events._get_running_loop()
+                w = getattr(lp, 'world', None)
                 if w is not None:
                     w.obs.append(['topo', [w.index_of.get(x, -1) for x in out]])
                 return out
@@ -194,7 +197,14 @@ class World:
         _LOOP_HOLDER['world'] = world
 
     def _task_created(self, t):
-        self.obs.append(['spawn', t.idx, t])     # the name is set after the factory returns: resolved later
+        r = CURRENT_RUN.get()
+        t.rid = r.rid if r is not None else -1
+        if r is not None:
+            t.local = r.ntasks
+            r.ntasks += 1
+        else:
+            t.local = -1
+        self.obs.append(['spawn', t.local, t])     # the name is set after the factory returns: resolved later
 
     def take_obs(self):
         out = []
@@ -240,6 +250,12 @@ class World:
         for i, a, cls in nd.get('fails', []):
             if i == inv and a == att:
                 return ('exc', progen.EXC[cls](idx, inv, att))
+        fh = nd.get('fail_hash')
+        if fh:
+            # input-dependent failure: a deterministic function of the arguments (which carry their whole provenance)
+            ks = ','.join(f'{k}={progen.fmt_val(v)}' for k, v in sorted((progen._key(k), v) for k, v in kw.items()))
+            if progen.fnv1a64(ks) % fh[0] == fh[1]:
+                return ('exc', progen.EXC[fh[2]](idx, inv, att))
         if nd.get('is_rec') and inv < nd.get('recur_k', 0):
             return ('ok', inst.next_iteration(f'it{inv}'))
         b = nd.get('body', {'kind': 'prov'})
@@ -440,6 +456,7 @@ def run_program(spec, policy, n_runs=1, inputs=None, drain=True, world=None, kee
     events = []
     try:
         ctxs = []
+        first_task = len(loop.tasks)
         for r in range(n_runs):
             ik = dict((inputs or [spec['input_kwargs']] * n_runs)[r])
             ctxs.append(w.start_run(r, ik))
@@ -448,7 +465,7 @@ def run_program(spec, policy, n_runs=1, inputs=None, drain=True, world=None, kee
         nh = 0
         choices = []
         verdict = None
-        done_seen = set()
+        done_seen = {t.idx for t in loop.tasks if t.idx < first_task}
         while nh < MAX_HANDLES:
             ready = loop.ready_tasks()
             gates = w.live_gates()
@@ -465,7 +482,8 @@ def run_program(spec, policy, n_runs=1, inputs=None, drain=True, world=None, kee
                 loop.timers_created.clear()
                 tid = loop.step()
                 nh += 1
-                ev = {'k': 'step', 't': tid, 'obs': w.take_obs()}
+                tk = loop.tasks[tid]
+                ev = {'k': 'step', 't': tk.local, 'rid': tk.rid, 'obs': w.take_obs()}
                 if loop.timers_created:
                     ev['obs'] = ev['obs'] + [['sleep', d] for d in loop.timers_created]
             elif ch[0] == 'gate':
@@ -476,15 +494,16 @@ def run_program(spec, policy, n_runs=1, inputs=None, drain=True, world=None, kee
                 before = set(loop.ready_tasks())
                 loop.fire_next_timer()
                 woken = [t for t in loop.ready_tasks() if t not in before]
-                ev = {'k': 'timer', 'woken': woken, 'obs': w.take_obs()}
+                ev = {'k': 'timer', 'woken': [loop.tasks[t].local for t in woken],
+                      'rid': loop.tasks[woken[0]].rid if woken else 0, 'obs': w.take_obs()}
             elif ch[0] == 'cancel':
                 ctxs[ch[1]].task.cancel()
                 loop.run_plumbing()
                 ev = {'k': 'cancel', 'rid': ch[1], 'obs': w.take_obs()}
-            newly = [[t.idx, _status(t)] for t in loop.tasks if t.done() and t.idx not in done_seen]
-            for i, _ in newly:
-                done_seen.add(i)
-            ev['done'] = newly
+            newly = [t for t in loop.tasks if t.done() and t.idx not in done_seen]
+            for t in newly:
+                done_seen.add(t.idx)
+            ev['done'] = [[t.local, _status(t), t.rid] for t in newly]
             events.append(ev)
         else:
             verdict = 'handle-limit'
@@ -496,11 +515,13 @@ def run_program(spec, policy, n_runs=1, inputs=None, drain=True, world=None, kee
             while loop.ready_tasks() and n < 500:
                 tid = loop.step()
                 n += 1
-                newly = [[t.idx, _status(t)] for t in loop.tasks if t.done() and t.idx not in done_seen]
-                for i, _ in newly:
-                    done_seen.add(i)
-                after.append({'k': 'step', 't': tid, 'obs': w.take_obs(), 'done': newly})
-            leftovers = [t.idx for t in loop.tasks if not t.done()]
+                tk = loop.tasks[tid]
+                newly = [t for t in loop.tasks if t.done() and t.idx not in done_seen]
+                for t in newly:
+                    done_seen.add(t.idx)
+                after.append({'k': 'step', 't': tk.local, 'rid': tk.rid, 'obs': w.take_obs(),
+                              'done': [[t.local, _status(t), t.rid] for t in newly]})
+            leftovers = [[t.rid, t.local] for t in loop.tasks if not t.done() and t.idx >= first_task]
         res = {
             'graph': w.graph, 'spec': spec, 'events': events, 'after': after, 'leftover_tasks': leftovers,
             'live_gates_at_end': [g.key for g in w.live_gates()],
@@ -508,6 +529,7 @@ def run_program(spec, policy, n_runs=1, inputs=None, drain=True, world=None, kee
             'verdict': verdict,
             'results': [list(c.result) if c.result else (['cancelled'] if c.task.cancelled() else None) for c in ctxs],
             'lock_slow_path': loop.lock_slow_path, 'handles': nh, 'choices': choices,
+            'inputs': [dict(c.input_kwargs) for c in ctxs],
         }
         return res
     finally:
